@@ -16,6 +16,7 @@ import Driver.Util
   confi <tp,..> <targ>* | <iface sig>* | <declared sig>*                 -> 1 | 0
   nam class <name=mod,..|-> <cur> <m.i=0|1,..> <name> ; nam module <m,..> <m> ;
   nam member <n=pub,..|-> <n=pub,..|-> <name>                            -> 1 | 0
+  kind callee <ty> | kind object <bounded generics> <ty> | kind fieldtargs <n|-> | kind super <m.i=0|1,..> <m.i=0,..> | kind imember <isClass> <m|f…>  -> 1 | 0
   sup <m.i/tp,tp/ty|ty ...>* ? <ty>   transitive super types -> c=<cyclic> x=<fuel exhausted> <ty>|<ty>…
 Type syntax (prefix, no blanks): a0 a1 | u b i | g<n>; | n<s>,<m>,<id>(<ty>*) | f(<ty>*)<ty> -/
 namespace Driver.C06
@@ -258,6 +259,21 @@ def step (_ : Unit) (line : String) : Unit × String :=
         else ((), "bad-decl")
       | none => ((), "bad-type")
     | _ => ((), "bad-op")
+  | ["kind", "callee", ty] =>
+    match parseTyS ty with
+    | some t => ((), bit (Gates.calleeOk t))
+    | none => ((), "bad-type")
+  | ["kind", "object", bg, ty] =>
+    match parseTyS ty with
+    | some t => ((), bit (Gates.memberObjectOk ((bg.splitOn ",").filterMap String.toNat?) t))
+    | none => ((), "bad-type")
+  | ["kind", "fieldtargs", g] => ((), bit (Gates.fieldTyArgsOk g.toNat?))
+  | ["kind", "super", tab, sup] =>
+    let kt : Gates.KindTable := (parseArity tab).map fun e => (e.1, e.2 == 1)
+    let ks := (parseArity sup).map (·.1)
+    ((), bit (Gates.superKindsOk kt (kt.map (·.1)) ks))
+  | ["kind", "imember", cls, ms] =>
+    ((), bit (Gates.interfaceMembersOk (cls == "1") (ms.toList.map (· == 'm'))))
   | ["slv", tps, c, g] =>
     let ns := ((tps.splitOn ",").filterMap String.toNat?)
     match parseTyS c, parseTyS g with
